@@ -16,7 +16,8 @@ def _clean():
 
 
 def run(c):
-    c.rule = ("step mode: random op sequences (8-28 ops: do ok/failing callback/failing SQL/failing append/read, must-commit-now write, "
+    c.rule = ("step mode: random op sequences (8-28 ops: do ok/failing callback/failing SQL/failing append/context cancelled or deadline "
+              "expired from inside the callback after its SQL ran/read (parked reads remember the offset row they read), must-commit-now write, "
               "binlog Commit at a random record boundary incl. stale ones, commit timer incl. a commit parked until the binlog catches up, "
               "real-time `tick` (two thirds of the NoWaitCommit-master cases run with CommitEvery=3ms: the engine's own timer may fire; there "
               "must be none in that mode), replica Apply/Skip/hold, explicit reader View, graceful close, crash image at a random durable boundary + replay with random "
@@ -34,7 +35,7 @@ def run(c):
         "kill instants are sampled, not enumerated; power-loss (torn pages, reordered writes) is not exercised",
         "step mode keeps its scratch database on tmpfs (crash images are taken in-process, nothing there depends on fsync)",
     ]
-    c.prove("SH.Props.C17", extra_files=["SH/Model/Engine.lean", "SH/Lemmas/Engine.lean", "SH/Lemmas/EngineChain.lean"])
+    c.prove("SH.Props.C17", extra_files=["SH/Model/Engine.lean", "SH/Lemmas/Engine.lean", "SH/Lemmas/EngineChain.lean", "SH/Lemmas/EngineWaitQ.lean"])
     drv = c.driver(DRIVER)
     binary = c.go_build(HARNESS)
     try:
@@ -86,6 +87,11 @@ META = {
              "committed_offset_le_durable (dbCommittedOffset <= binlogDurableOffset in EVERY mode with a binlog, covered by an already "
              "delivered Commit) with nowait_has_no_timer (the CommitEvery timer exists only in WaitCommit mode and waits for the binlog; "
              "timer_without_wait_breaks_invariant is the decide witness for a timer that commits without waiting, seeded change C17-r3-2), "
+             "released_only_when_covered (wait queue modelled explicitly: a write entry stands for its own end offset, a read entry for "
+             "the offset row it has read; whatever the binlog announces next, every released entry is covered by it - invariant WQ, "
+             "parked_calls_context; decide witness release_by_compaction_uncovers_a_read for seeded change C17-r5-1), "
+             "offset_update_precedes_append (a write whose context dies before the engine's own offset UPDATE fails before anything "
+             "reached the binlog; decide witness append_before_offset_update_leaves_record for the swapped order, C17-r5-2), "
              "readers_observe_announced_prefix (trace level: split any schedule at any View: the value the callback observes is the "
              "application of the binlog prefix ending at its offset, that offset is 0 or covered by a Commit already delivered before "
              "that moment - ghost list ann, pinned by ann_records_commits - and the View changes nothing), "
@@ -98,7 +104,7 @@ META = {
              "in-process crash images) and on the compiled model and diffing committed state, transaction state, offsets, wait queue and "
              "acknowledgements after every op; the property itself is evaluated directly on the real engine in both modes (oracle signatures "
              "db-not-prefix, db-ahead-of-binlog, tx-not-prefix, acked-not-durable, acked-lost, failed-do-left-db-change, "
-             "failed-do-left-binlog-record, restart-missing-events, view-not-prefix, restart-not-writable, restart-failed, "
+             "failed-do-left-binlog-record, read-returned-uncommitted-data, restart-missing-events, view-not-prefix, restart-not-writable, restart-failed, "
              "restart-failed-torn-tail). Known finding restart-failed-torn-tail (no fix applied): a kill inside a large binlog write(2) leaves a "
              "partial record at the end of the last file; fsbinlog's writer then refuses to reopen it and a master engine does not come up until "
              "the file is cut by hand. The model reproduces this (crash with torn=true -> open-error, field down; theorem "
